@@ -313,7 +313,7 @@ func Gen(caseID, tier string) (json.RawMessage, error) {
 			p.Spec.NameType = int32(r.PickInt(2, 10))
 		}
 		if r.Chance(1, 3) {
-			p.Spec.Addrs = r.Pick("match", "other", "both", "match6", "other4-match6")
+			p.Spec.Addrs = r.Pick("match", "other", "both", "match6", "other4-match6", "nb-other", "nb-match", "nb-only", "match-bytes-as-type3")
 		}
 		if r.Chance(1, 4) {
 			p.Spec.PAC = r.Pick("valid", "valid", "flipped", "wrongkey", "sigflipped", "truncated", "nosig", "noinfo")
